@@ -10,6 +10,7 @@ mod compile;
 mod frags;
 mod lift;
 mod ext;
+mod ext_opsdir;
 mod eqord;
 mod robust;
 mod sat;
@@ -59,6 +60,7 @@ fn main() {
         "text" => text::run(&args[2..]),
         "keytext" => keytext::run(&args[2..]),
         "ext" => ext::run(&args[2..]),
+        "opsdir" => ext_opsdir::run(&args[2..]),
         "eqord" => eqord::run(&args[2..]),
         "translate" => translate::run(&args[2..]),
         "translate-mp" => translate_mp::run(&args[2..]),
